@@ -351,6 +351,10 @@ func c05(ctx *core.Ctx) {
 						continue
 					}
 					ct := out.Rec.Hdr().Get("Content-Type")
+					if n := len(out.Rec.Hdr()["Content-Type"]); n > 1 {
+						ctx.Violation(caseIdx, "c05:content-type-count", fmt.Sprintf("%d Content-Type header fields: %v", n, out.Rec.Hdr()["Content-Type"]), doc)
+						continue
+					}
 					if out.Status == 406 {
 						ctx.Violation(caseIdx, "c05:406-after-admission:"+mode, fmt.Sprintf("router admitted Accept %q on Produces %v but the entity writer answered 406", accept, l), doc)
 						continue
